@@ -7,6 +7,7 @@ import Rio.Model.Kvfs
 import Rio.Model.Asm
 import Rio.Model.Osfs
 import Rio.Model.Git
+import Rio.Model.Asm14
 namespace Rio.Driver
 open Rio
 
@@ -264,6 +265,21 @@ def gitEngine : List String → String
         let lines := ms'.map (fun m => s!"{toHex m.name.path}|{kindTok m.kind}|{m.perms}|{m.uid}|{m.gid}|{m.mtime.sec}|{toHex m.linkname}")
         ",".intercalate (sortBy (fun (x : String) => x.toUTF8.toList) lines)
     | _, _, _, _ => "bad-op"
+  | _ => "bad-op"
+
+/-- `asm14 <pathhex:isMount:tag;...>` → processing order and the mount rule's verdict -/
+def asm14Engine : List String → String
+  | [ins] =>
+    let parsed := (ins.splitOn ";").mapM (fun t => match t.splitOn ":" with
+      | [p, m, tg] => do pure (⟨← fromHex p, m = "1", ← tg.toNat?⟩ : AsmInput)
+      | _ => none)
+    match parsed with
+    | some xs =>
+      let (s, r) := asmPlan xs
+      match r with
+      | some x => s!"refused={x.tag}"
+      | none => s!"order={",".intercalate (s.map (fun x => toString x.tag))}"
+    | none => "bad-op"
   | _ => "bad-op"
 
 def schemeOfTok : String → Option Scheme
